@@ -46,12 +46,91 @@ def run(report, db, tier):
            "are distinct within each table (C06's rules)",
            lambda rid, c: rid in ('R06.1', 'R06.2', 'R06.3', 'R06.4'),
            lambda sub: c06.run(sub, db, tier))
+    r9(report, db, P, cg, classes)
     from ..connmodel import ConnModel
     from .. import shared
     R7 = report.rule('R05.7', 'under the same version: write_packet imposes '
                      'the connection\'s context on every packet it sends')
     shared.context_imposed(report, R7, db, shared.summariser(db, cg),
                            ConnModel(db, cg))
+
+
+# ---------------------------------------------------------------------------
+def r9(report, db, P, cg, classes):
+    """An optional field is present when it is not None.  A hand-written
+    writer that decides by the field's *truth* whether to send it loses the
+    legal values that are false: b'', '', 0."""
+    from ..pathsum import struct as _st, subterms, show
+    R = report.rule('R05.9', 'hand-written writers decide the presence of an '
+                    'optional field by `is not None`, never by its truth '
+                    '(an empty or zero value is a value)')
+    S = getattr(report, '_s5', None)
+    if S is None:
+        S = report._s5 = shared.summariser(db, cg, implicit_raises=False)
+    n = 0
+    seen = set()
+    writers = []
+    for cv in sorted(classes, key=lambda c: c.ci.fq):
+        _, wr = P.custom_codec(cv.ci)
+        if wr is not None and wr not in seen:
+            seen.add(wr)
+            writers.append(wr)
+    for fi in db.funcs:
+        if fi.name in ('send', 'send_with_context') and fi.cls is not None \
+                and db.is_subclass(fi.cls, P.type_ci) and fi not in seen \
+                and fi.module.name.startswith('minecraft.networking.packets'):
+            seen.add(fi)
+            writers.append(fi)
+    for wr in writers:
+        try:
+            paths = S.run(wr)
+        except AnalysisError:
+            continue
+        n += 1
+        sent = {}           # struct(value) -> set of path indices sending it
+        codec = {}
+        for i, p in enumerate(paths):
+            for e in p.flat(('call',)):
+                if e.method() in ('send', 'send_with_context') and e.args:
+                    k = _st(e.args[0])
+                    sent.setdefault(k, set()).add(i)
+                    codec.setdefault(k, set()).add(show(e.fn)[:40])
+        if not sent:
+            continue
+        partial = {k for k, idx in sent.items() if len(idx) < len(paths)
+                   and not all('Boolean' in c for c in codec[k])}
+        if not partial:
+            continue
+        for p in paths:
+            terms = [a for a, _, _ in p.conds]
+            for e in p.flat(('call',)):
+                if e.method() in ('send', 'send_with_context') and e.args:
+                    terms.append(e.args[0])
+            for t0 in terms:
+                for t in subterms(t0):
+                    if t[0] == 'op' and t[1] in ('bool', 'truth', 'not') \
+                            and len(t[2]) == 1 and _st(t[2][0]) in partial:
+                        x = t[2][0]
+                        report.violation(
+                            R, 'presence-by-truth:%s:%s' % (wr.qualname,
+                                                            show(x)[:40]),
+                            wr.path, wr.node, wr.qualname,
+                            '%s is sent on some paths only, and which ones '
+                            'depends on its truth (%s): a value that is '
+                            'false but not None (b"", "", 0) is written as '
+                            'absent and reads back as None'
+                            % (show(x), show(t)[:60]))
+                        break
+                else:
+                    continue
+                break
+            else:
+                continue
+            break
+    report.floor('hand-written writers checked for presence-by-truth', n, 9)
+    if not any(f.rule == R for f in report.violations):
+        report.ok(R, '%d hand-written writers: no optional field is dropped '
+                  'for being false' % n)
 
 
 # ---------------------------------------------------------------------------
